@@ -62,7 +62,7 @@ Definition spray_notify (c : sconf) (origin : bool) (blk prev : option N) : smet
   | SprayBinary =>
       match blk with
       | Some k => {| sm_rem := k; sm_sent := opt_list prev |}
-      | None => {| sm_rem := sc_L c; sm_sent := [] |}
+      | None => {| sm_rem := sc_L c; sm_sent := opt_list prev |}   (* after fix 2edd1c0: the previous node is recorded *)
       end
   end.
 
